@@ -8,6 +8,7 @@ PAIR-20 every player a step used is remembered and cleared with the show's conte
 FLOW-8  what a show-capable player registers at a device is removed by clear_context under the same key
 """
 import ast
+import re
 
 from sa.model import src, short, dotted, call_attr, kwarg, walk_local, AnalysisError, const_value
 from sa.index import get_index
@@ -126,7 +127,8 @@ def check(chk):
     plays = [(n, c) for n, c in cfg.calls_named("show_play_callback")]
     adds = [n.id for n, c in cfg.calls_named("add") if src(c.func.value) == "self._players"]
     heads = [h.id for h in cfg.nodes if h.kind == "loop"]
-    chk.require(plays, "C17: show_play_callback vanished")
+    if not plays:
+        chk.missing("PAIR-20", "_run_next_step hands the step's entries to their players (show_play_callback)", f)
     for n, c in plays:
         w = cfg.path_avoiding(n.id, heads + [cfg.exit.id], adds, ignore_exc=True)
         chk.ob("PAIR-20", "every player a step used is remembered for clean-up", w is None and bool(adds), f.where(c),
@@ -180,6 +182,8 @@ def check(chk):
     chk.ob("PAIR-20", "a player's show-stop callback clears that context", ok, cpb.where(), construct=cpb.ident, text="show_stop_callback")
     chk.floor("PAIR-20", 10)
 
+    _show_events(chk, repo)
+
     # ------------------------------------------------------------ FLOW-8
     lp = repo.cls(LP, "LightPlayer")
     lc = lp.methods["_light_color"]
@@ -232,6 +236,142 @@ def check(chk):
     chk.ob("FLOW-8", "CoilPlayer.clear_context disables the coils it enabled in that context", ok, cc3.where(), construct=cc3.ident, text="coil player clear")
 
 
+def _show_events(chk, repo):
+    """EVT-17: played / looped / completed / stopped events are posted once each, at their moment; START-17: start step."""
+    rs = repo.cls(SH, "RunningShow")
+    f = rs.methods["_run_next_step"]
+    cfg = f.cfg()
+    ext = {}
+    for n in cfg.nodes:
+        if n.kind == "branch":
+            continue
+        for c in n.calls():
+            if call_attr(c) in ("extend", "append") and src(c.func.value) == "events" and c.args:
+                t_ = src(c.args[0])
+                m_ = re.search(r"events_when_\w+", t_)
+                ext.setdefault("self.show_config." + m_.group(0) if m_ else t_, []).append((n, c))
+    END = "self.next_step_index >= self._total_steps"
+    wraps = [n for n in cfg.nodes_where(lambda n: n.kind == "stmt" and isinstance(n.ast, ast.Assign) and src(n.ast.targets[0]) == "self.next_step_index"
+                                        and src(n.ast.value) == "0")]
+    looped = ext.get("self.show_config.events_when_looped", [])
+    for wn in wraps:
+        gw = cfg.guards_at(wn.id)
+        key = tuple(sorted((k, v) for k, v in gw.items() if k.startswith("self.loops")))
+        same = [n for n, c in looped if tuple(sorted((k, v) for k, v in cfg.guards_at(n.id).items() if k.startswith("self.loops"))) == key
+                and cfg.guards_at(n.id).get(END) is True]
+        chk.ob("EVT-17", "every wrap to the first step queues the looped events", bool(same), f.where(wn.ast),
+               detail="wrap under %s" % (key,), construct=f.ident, text="looped events on wrap %s" % (key,))
+    for n, c in looped:
+        g = cfg.guards_at(n.id)
+        ok = g.get(END) is True and (g.get("self.loops > 0") is True or g.get("self.loops < 0") is True)
+        chk.ob("EVT-17", "looped events are queued only when the show wraps", ok, f.where(c), detail="guards %s" % sorted(g.items()),
+               construct=f.ident, text="looped events guard")
+    comp = ext.get("self.show_config.events_when_completed", [])
+    chk.ob("EVT-17", "completion events are queued at the end of the show", len(comp) == 1, f.where(), construct=f.ident, text="completed events present")
+    for n, c in comp:
+        g = cfg.guards_at(n.id)
+        ok = g.get(END) is True and g.get("self.loops > 0") is False and g.get("self.loops < 0") is False
+        chk.ob("EVT-17", "completion events are queued only when the show ends (no loops left)", ok, f.where(c),
+               detail="guards %s" % sorted(g.items()), construct=f.ident, text="completed events guard")
+    # whatever was queued is posted before the step function returns
+    posts = [n.id for n, c in cfg.calls_named("_post_events") if c.args and src(c.args[0]) == "events"]
+    for key, lst in ext.items():
+        for n, c in lst:
+            w = cfg.path_avoiding(n.id, [cfg.exit.id], posts, ignore_exc=True)
+            # a path that skips the post because `events` is empty is impossible after an extend with a non-empty list; accept the
+            # `if events:` false branch only when the extend itself was conditional on a truthy list
+            if w is not None:
+                falsy = [b.id for b in cfg.nodes if b.kind == "branch" and src(b.ast) == "events" and b.value is False]
+                w = cfg.path_avoiding(n.id, [cfg.exit.id], posts + falsy, ignore_exc=True)
+            chk.ob("EVT-17", "events queued from `%s` are posted before the step returns" % key.split(".")[-1], w is None, f.where(c),
+                   path=cfg.fmt_path(w, SH) if w else None, construct=f.ident, text="queued events posted: " + key.split(".")[-1])
+    pe = ext.get("post_events", [])
+    chk.ob("EVT-17", "the events handed in by the caller (played / advanced ...) are queued", bool(pe), f.where(), construct=f.ident,
+           text="post_events queued")
+    sn = rs.methods["_start_now"]
+    c = [x for x in sn.calls() if call_attr(x) == "_run_next_step"]
+    ok = bool(c) and kwarg(c[0], "post_events") is not None and src(kwarg(c[0], "post_events")) == "self.show_config.events_when_played"
+    chk.ob("EVT-17", "the played events go out with the first step", ok, sn.where(), construct=sn.ident, text="played events")
+    st = rs.methods["stop"]
+    scfg = st.cfg()
+    sp = [(n, c) for n, c in scfg.calls_named("_post_events") if c.args and src(c.args[0]) == "self.show_config.events_when_stopped"]
+    flag = [n for n in scfg.nodes_where(lambda n: n.kind == "stmt" and isinstance(n.ast, ast.Assign) and src(n.ast.targets[0]) == "self._stopped"
+                                        and src(n.ast.value) == "True")]
+    ok = len(sp) == 1 and bool(flag) and scfg.dominates(flag[0].id, sp[0][0].id) and \
+        all(k in ("self._stopped", "self.show_config.events_when_stopped") for k in scfg.guards_at(sp[0][0].id))
+    chk.ob("EVT-17", "the stopped events are posted once, by the stop that actually stops the show", ok, st.where(), construct=st.ident,
+           text="stopped events")
+    for meth, attr in (("pause", "events_when_paused"), ("resume", "events_when_resumed"), ("advance", "events_when_advanced"),
+                       ("step_back", "events_when_stepped_back"), ("update", "events_when_updated")):
+        m = rs.methods.get(meth)
+        if m is None:
+            continue
+        chk.analysed(m)
+        txt = src(m.node)
+        # not among the events the property names (played / looped / completed / stopped): reported, never gating
+        if ("self.show_config." + attr) not in txt:
+            chk.observe("EVT-17", "RunningShow.%s does not post the configured %s" % (meth, attr), m.where())
+    chk.floor("EVT-17", 10)
+    # ---- START-17
+    sp_ = rs.methods["_start_play"]
+    chk.analysed(sp_)
+    pcfg = sp_.cfg()
+    sts = [n for n in pcfg.nodes_where(lambda n: n.kind == "stmt" and isinstance(n.ast, ast.Assign) and src(n.ast.targets[0]) == "self.next_step_index")]
+    seen = set()
+    for n in sts:
+        g = pcfg.guards_at(n.id)
+        v = src(n.ast.value).replace(" ", "")
+        pos, neg = g.get("self.start_step > 0"), g.get("self.start_step < 0")
+        if v == "self.start_step-1":
+            ok = pos is True
+            seen.add("pos")
+        elif v == "self.start_step%self._total_steps":
+            ok = neg is True and pos is not True
+            seen.add("neg")
+        elif v == "0":
+            ok = pos is False and neg is False
+            seen.add("zero")
+        else:
+            ok = False
+        chk.ob("START-17", "the first step index follows the start step (1-based; negative counts from the end; 0 = first)", ok,
+               sp_.where(n.ast), detail="value %s under %s" % (v, sorted(g.items())), construct=sp_.ident, text="start index " + v)
+    chk.ob("START-17", "positive, negative and zero start steps are all handled", seen == {"pos", "neg", "zero"}, sp_.where(), construct=sp_.ident,
+           text="start step cases %s" % sorted(seen))
+    tot = [n for n in pcfg.nodes_where(lambda n: n.kind == "stmt" and isinstance(n.ast, ast.Assign) and src(n.ast.targets[0]) == "self._total_steps")]
+    ok = bool(tot) and src(tot[0].ast.value).replace(" ", "") == "len(self.show_steps)" and all(pcfg.dominates(tot[0].id, n.id) for n in sts)
+    chk.ob("START-17", "the step count is the number of steps of the show, known before the start index is computed", ok, sp_.where(),
+           construct=sp_.ident, text="total steps")
+    # negative index (step back past the first step) wraps before it is used
+    mods = [n for n in cfg.nodes_where(lambda n: n.kind == "stmt" and isinstance(n.ast, ast.AugAssign) and src(n.ast.target) == "self.next_step_index"
+                                       and isinstance(n.ast.op, ast.Mod))]
+    use = [n for n in cfg.nodes_where(lambda n: n.kind == "stmt" and isinstance(n.ast, ast.Assign) and src(n.ast.targets[0]) == "self.current_step_index")]
+    ok = bool(mods) and bool(use) and all(cfg.guards_at(m.id).get("self.next_step_index < 0") is True and src(m.ast.value) == "self._total_steps" for m in mods)
+    if ok:
+        neg_b = [b.id for b in cfg.nodes if b.kind == "branch" and src(b.ast) == "self.next_step_index < 0" and b.value is True]
+        ok = all(cfg.path_avoiding(b, [u.id for u in use], [m.id for m in mods], ignore_exc=True) is None for b in neg_b)
+    chk.ob("START-17", "a negative step index (stepping back past the start) wraps around before the step is taken", ok, f.where(), construct=f.ident,
+           text="negative index wrap")
+    # light player: stop colour removes, everything else colours with the step's start time
+    lp = repo.cls(LP, "LightPlayer")
+    lc = lp.methods["_light_color"]
+    lcfg = lc.cfg()
+    rm = [(n, c) for n, c in lcfg.calls_named("_light_remove")]
+    col = [(n, c) for n, c in lcfg.calls_named("color") if dotted(c.func.value) == "light"]
+    for n, c in rm:
+        g = lcfg.guards_at(n.id)
+        ok = g.get("color == 'stop'") is True
+        chk.ob("FLOW-8", "the colour `stop` removes the show's entry from the light", ok, lc.where(c), detail="guards %s" % sorted(g.items()),
+               construct=lc.ident, text="stop colour guard")
+        ret_after = lcfg.path_avoiding(n.id, [x.id for x, _ in col], [], ignore_exc=True)
+        chk.ob("FLOW-8", "after a `stop` colour nothing is coloured", ret_after is None, lc.where(c), construct=lc.ident, text="stop then colour")
+    chk.ob("FLOW-8", "LightPlayer handles the `stop` colour", bool(rm), lc.where(), construct=lc.ident, text="stop colour present")
+    for n, c in col:
+        kw = {k.arg: src(k.value) for k in c.keywords}
+        ok = kw.get("fade_ms") == "fade_ms" and kw.get("priority") == "priority" and kw.get("start_time") == "start_time"
+        chk.ob("FLOW-8", "the light is coloured with the step's fade, priority and start time", ok, lc.where(c), detail=str(kw), construct=lc.ident,
+               text="colour arguments")
+
+
 def battery():
     from sa.battery import M
     return [
@@ -254,6 +394,16 @@ def battery():
         # twins
         M("twin: inline increment", SH, "            self.next_step_time += time_to_next_step\n", "            self.next_step_time += self.show_steps[self.current_step_index]['duration'] / self.show_config.speed\n", None),
         M("twin: snapshot players", SH, "        for player in self._players:\n            self.machine.show_controller.show_players[player].show_stop_callback(self.context)", "        for player in list(self._players):\n            self.machine.show_controller.show_players[player].show_stop_callback(self.context)", None),
+        M("infinite loops post no looped events", SH, "            elif self.loops < 0:\n                self.next_step_index = 0\n                if self.show_config.events_when_looped:\n                    events.extend(self.show_config.events_when_looped)", "            elif self.loops < 0:\n                self.next_step_index = 0", "EVT-17"),
+        M("completed events queued but never posted", SH, "                    events.extend(self.show_config.events_when_completed)\n                self._post_events(events)\n                return", "                    events.extend(self.show_config.events_when_completed)\n                return", "EVT-17"),
+        M("completion events on every wrap", SH, "                self.loops -= 1\n                self.next_step_index = 0\n", "                self.loops -= 1\n                self.next_step_index = 0\n                events.extend(self.show_config.events_when_completed or [])\n", "EVT-17"),
+        M("played events not posted", SH, "self._run_next_step(post_events=self.show_config.events_when_played,", "self._run_next_step(post_events=None,", "EVT-17"),
+        M("stopped events posted by every stop call", SH, "        if self._stopped:\n            return\n        self.machine.show_controller.debug_log(\"Stopping show %s\", self.show.name)", "        if self.show_config.events_when_stopped:\n            self._post_events(self.show_config.events_when_stopped)\n        if self._stopped:\n            return\n        self.machine.show_controller.debug_log(\"Stopping show %s\", self.show.name)", "EVT-17"),
+        M("start step 0 starts at the last step", SH, "        if self.start_step > 0:\n            self.next_step_index = self.start_step - 1", "        if self.start_step >= 0:\n            self.next_step_index = self.start_step - 1", "START-17"),
+        M("start step off by one", SH, "            self.next_step_index = self.start_step - 1\n        elif", "            self.next_step_index = self.start_step\n        elif", "START-17"),
+        M("negative index not wrapped", SH, "        if self.next_step_index < 0:\n            self.next_step_index %= self._total_steps\n", "", "START-17"),
+        M("stop colour ignored", LP, "        if isinstance(color, str) and color == \"stop\":\n            self._light_remove(light, instance_dict, full_context, fade_ms)\n            return\n", "", "FLOW-8"),
+        M("light coloured without the step's start time", LP, "priority=priority, start_time=start_time)", "priority=priority)", "FLOW-8"),
     ]
 
 
